@@ -71,3 +71,7 @@ pub use crate::util::heap::pageresource::{
 pub use crate::util::heap::VerifPageAccounting as PageAccounting;
 /// `util::metadata::mark_bit` (crate-visible module, public type).
 pub use crate::util::metadata::mark_bit::MarkState;
+
+/// `policy::immix` block / line types (the `policy` module is private to the crate).
+pub use crate::policy::immix::block::{Block, BlockState};
+pub use crate::policy::immix::line::Line;
